@@ -6,6 +6,7 @@ import YaraModel.Lemmas.ReAlgebra
 import YaraModel.Lemmas.ReVm
 import YaraModel.Lemmas.ReEmit
 import YaraModel.Lemmas.ReAtomPos
+import YaraModel.Lemmas.ReComplete
 namespace YaraModel.C03
 open YaraModel.Re
 
@@ -77,6 +78,25 @@ theorem vm_reports_reachable (e : Env) (m : Int) (c : List Nat) (h : exec e = .d
     (∀ L, L ∈ c → ∃ f md, Reach e f md L ∧ u8 e.code f.ip = OP_MATCH) ∧
     (0 ≤ m → ∃ f md, Reach e f md m.toNat ∧ u8 e.code f.ip = OP_MATCH) :=
   exec_sound e m c h
+
+open YaraModel.ReVm in
+/-- `vm_reports_accepting`: the converse half at the level of the executable model, for ANY bytecode, flags (byte or wide,
+    forwards or backwards) and input — in EXHAUSTIVE mode (not scan mode) a run of the model of `yr_re_exec` that returns
+    without an error (`exec e = .done m c`: fiber limit and fuel bounds not hit) reports the length of every ACCEPTING PATH
+    from the entry: `AccU e n f 0` = whatever list a top-level `_yr_re_fiber_sync` call on `f` returns, it contains a
+    stopped fiber that (n = 0) stands at RE_OPCODE_MATCH or (n + 1) stands at a consuming instruction that accepts the
+    current character and whose successor again has such a path after every top-level sync (`AccN`, Lemmas/ReComplete.lean).
+    The de-duplication only drops EQUAL fibers, the pass keeps the successors of every accepted fiber and the callback is
+    called for every fiber at MATCH, so nothing on the path is lost.  (First half of VM completeness; the second half —
+    every match of the expression yields an accepting path through the emitted code — is proved for hex patterns,
+    Thm/C02 `vm_complete_hex_partial`; for regular expressions with ε-loops and counted repeats it is open.) -/
+theorem vm_reports_accepting (e : Env) (hx : e.fl.exhaustive = true) (hs : e.fl.scan = false) (m : Int) (c : List Nat)
+    (h : exec e = .done m c) (n : Nat) (hacc : AccU e n { ip := e.entry } 0) : n * e.cs ∈ c :=
+  exec_complete e hx hs m c h n hacc
+
+open YaraModel.ReVm YaraModel.ReEmit in
+/-- instance: the exhaustive run on the code of `ab*` over `abb` reports the lengths of all three accepting paths -/
+example : exec { code := (emitCode false (.cat (.lit 97) (.star (.lit 98) true))).toArray, entry := 0, buf := "abb".toUTF8.data, start := 0, fl := { exhaustive := true } } = .done 3 [1, 2, 3] := by decide
 
 open YaraModel.ReVm YaraModel.ReEmit in
 /-- instance: the model of `yr_re_exec` on the code emitted for `a(b|c)*d` (greedy) over `abcbd` reports 5 -/
